@@ -2483,13 +2483,16 @@ impl<'a, R: FileManager> FrontendCtx<'a, R> {
     ) -> Res<Runtype> {
         let mut vs = vec![];
         let module = self.get_or_fetch_file(bff_file_name, anchor)?;
-        for (name, sym) in &module.symbol_exports.named_values {
+        // iterate in name order: the first error returned must not depend on hash order
+        let named_values: BTreeMap<_, _> = module.symbol_exports.named_values.iter().collect();
+        for (name, sym) in named_values {
             let v = self.extract_sym_export_as_value(sym, anchor)?;
             if let Some(v) = v {
                 vs.push((name.clone(), v.required()));
             }
         }
-        for (name, sym) in &module.symbol_exports.named_unknown {
+        let named_unknown: BTreeMap<_, _> = module.symbol_exports.named_unknown.iter().collect();
+        for (name, sym) in named_unknown {
             let v = self.extract_sym_export_as_value(sym, anchor)?;
             if let Some(v) = v {
                 vs.push((name.clone(), v.required()));
